@@ -79,6 +79,7 @@ type ZEnv struct {
 	loadSubst  map[*ssa.UnOp]ssa.Value
 	phiLenMemo map[*ssa.Phi]Lin
 	phiLenBusy map[*ssa.Phi]bool
+	rel        map[string][]Fact // relational facts attached to a symbol (min/max results)
 }
 
 func NewZEnv(fn *ssa.Function) *ZEnv {
@@ -119,6 +120,39 @@ func (z *ZEnv) sym(name string, v ssa.Value) Lin {
 		}
 	}
 	return symLin(name, nonneg)
+}
+
+// linLo / linHi: constant bounds of a linear form from the known bounds of its symbols.
+func (z *ZEnv) linLo(l Lin) (int64, bool) {
+	r := l.C
+	for s, c := range l.T {
+		switch {
+		case c > 0 && z.hasLo[s]:
+			r += c * z.lo[s]
+		case c > 0 && l.nonneg[s]:
+		case c < 0 && z.hasHi[s]:
+			r += c * z.hi[s]
+		default:
+			return 0, false
+		}
+	}
+	return r, true
+}
+
+func (z *ZEnv) linHi(l Lin) (int64, bool) {
+	r := l.C
+	for s, c := range l.T {
+		switch {
+		case c > 0 && z.hasHi[s]:
+			r += c * z.hi[s]
+		case c < 0 && z.hasLo[s]:
+			r += c * z.lo[s]
+		case c < 0 && l.nonneg[s]:
+		default:
+			return 0, false
+		}
+	}
+	return r, true
 }
 
 func (z *ZEnv) setLo(s string, k int64) {
@@ -471,8 +505,66 @@ func (z *ZEnv) of(v ssa.Value, d int) Lin {
 				name := "copy@" + x.Name()
 				z.setLo(name, 0)
 				return symLin(name, true)
-			case "min":
-				// handled as opaque with both upper bounds registered by the prover (see Prover.symFacts)
+			case "min", "max":
+				if isInt(x.Type()) && len(x.Call.Args) == 2 {
+					a, bb := z.of(x.Call.Args[0], d+1), z.of(x.Call.Args[1], d+1)
+					isMin := b.Name() == "min"
+					if a.Sub(bb).NonNeg() { // a >= b
+						if isMin {
+							return bb
+						}
+						return a
+					}
+					if bb.Sub(a).NonNeg() {
+						if isMin {
+							return a
+						}
+						return bb
+					}
+					name := b.Name() + "@" + x.Name()
+					if z.rel == nil {
+						z.rel = map[string][]Fact{}
+					}
+					al, aLoOK := z.linLo(a)
+					bl, bLoOK := z.linLo(bb)
+					ah, aHiOK := z.linHi(a)
+					bh, bHiOK := z.linHi(bb)
+					nonneg := false
+					if isMin {
+						if aLoOK && bLoOK {
+							z.setLo(name, min(al, bl))
+							nonneg = min(al, bl) >= 0
+						}
+						if aHiOK {
+							z.setHi(name, ah)
+						}
+						if bHiOK {
+							z.setHi(name, bh)
+						}
+					} else {
+						if aHiOK && bHiOK {
+							z.setHi(name, max(ah, bh))
+						}
+						if aLoOK {
+							z.setLo(name, al)
+							nonneg = nonneg || al >= 0
+						}
+						if bLoOK {
+							z.setLo(name, bl)
+							nonneg = nonneg || bl >= 0
+						}
+					}
+					r := symLin(name, nonneg)
+					if _, done := z.rel[name]; !done {
+						if isMin {
+							z.rel[name] = []Fact{{a.Sub(r), name + " <= " + a.String()}, {bb.Sub(r), name + " <= " + bb.String()}}
+						} else {
+							z.rel[name] = []Fact{{r.Sub(a), name + " >= " + a.String()}, {r.Sub(bb), name + " >= " + bb.String()}}
+						}
+					}
+					z.symVal[name] = x
+					return r
+				}
 			}
 		}
 	case *ssa.UnOp:
@@ -1026,6 +1118,7 @@ func (p *Prover) symFacts(ls ...Lin) []Fact {
 			if p.Env.hasHi[s] {
 				out = append(out, Fact{symLinK(s, -1, p.Env.hi[s], false), fmt.Sprintf("%s <= %d", s, p.Env.hi[s])})
 			}
+			out = append(out, p.Env.rel[s]...)
 		}
 	}
 	return out
